@@ -220,11 +220,62 @@ func ruleFlushBeforeSend(c *Ctx) {
 	srcs := fg.FindCalls(func(f *types.Func, call *ast.CallExpr) bool {
 		return isMethod(f, modPath+"/internal/server", "Server", "handleInputCommand")
 	})
-	if len(writes) == 0 || len(srcs) == 0 {
+	// a reply routine kept in a local closure (flushOut := func() {…}) that the loop invokes: inside it the write
+	// must be protected on every path from the closure's entry — whatever happened before the call
+	nClosureWrites := 0
+	ast.Inspect(lit.Body, func(n ast.Node) bool {
+		as, ok := n.(*ast.AssignStmt)
+		if !ok || len(as.Lhs) != 1 || len(as.Rhs) != 1 {
+			return true
+		}
+		inner, ok := as.Rhs[0].(*ast.FuncLit)
+		if !ok {
+			return true
+		}
+		name := exprStr(as.Lhs[0])
+		ifg := newFlowGraph(info, inner.Body)
+		for _, w := range ifg.Find(func(n ast.Node) bool {
+			call, ok := n.(*ast.CallExpr)
+			if !ok || len(call.Args) != 1 {
+				return false
+			}
+			se, ok := ast.Unparen(call.Fun).(*ast.SelectorExpr)
+			return ok && se.Sel.Name == "Write" && selField(info, call.Args[0]) == out
+		}) {
+			if enclosingFuncLit(c.Program, w.Node) != inner {
+				continue
+			}
+			nClosureWrites++
+			call := w.Node.(*ast.CallExpr)
+			key := "netServe$conn/" + name + "→" + exprStr(call.Fun) + "(" + exprsStr(call.Args) + ")"
+			ww := w
+			reach, trail := ifg.Reach(PathQuery{
+				Target: func(l Loc) bool { return l.Block == ww.Block && l.Idx == ww.Idx },
+				Avoid: func(l Loc) bool {
+					if l.Block == ww.Block && l.Idx == ww.Idx {
+						return false
+					}
+					return fc.flushEvent(ifg, ns, l, 3)
+				},
+				EdgeOK: func(b *cfg.Block, si int) bool { return !fc.isLoadFalseEdge(ifg, b, si) },
+			})
+			if reach {
+				var path []string
+				for _, n := range trail {
+					path = append(path, c.posStr(n.Pos()))
+				}
+				c.badPath(key, call.Pos(), path, "replies buffered in client.out reach the socket in this reply routine without the dirty flag having been tested or the AOF buffer flushed under the lock: a success reply can precede its log write")
+			} else {
+				c.ok(key, call.Pos(), true, "inside the reply routine every path to this socket write passes the dirty-flag test (clean) or a flush under the exclusive lock")
+			}
+		}
+		return true
+	})
+	if (len(writes) == 0 && nClosureWrites == 0) || len(srcs) == 0 {
 		c.bad("socket-writes", lit.Pos(), "no socket write of client.out or no handleInputCommand call found in the connection closure")
 		return
 	}
-	c.stat("socket_writes_of_client_out", len(writes))
+	c.stat("socket_writes_of_client_out", len(writes)+nClosureWrites)
 	for _, w := range writes {
 		call := w.Node.(*ast.CallExpr)
 		key := "netServe$conn→" + exprStr(call.Fun) + "(" + exprsStr(call.Args) + ")"
